@@ -633,3 +633,33 @@ package template
 //@   ensures fresh: !isnil(r) && fresh(r) && r.nameSpace == old(t.nameSpace) && isnil(r.escapeErr) && isnil(r.Tree)
 //@   ensures registered: old(t.nameSpace).set[name] == r
 //@   ensures unlocked: !held(old(t.nameSpace).mu)
+//@ func (t *Template) Clone() (r *Template, err error)
+//@   serves C07 C08
+//@   requires !isnil(t) && !isnil(t.nameSpace) && !isnil(t.text) && !isnil(t.nameSpace.set) && !held(t.nameSpace.mu)
+//@   option allocates
+//@   option locks true
+//@   ensures executed: !isnil(old(t.escapeErr)) ==> !isnil(err) && isnil(r)
+//@   ensures ok: isnil(err) ==> !isnil(r) && fresh(r) && !isnil(r.nameSpace) && fresh(r.nameSpace) && r.nameSpace != t.nameSpace && !r.nameSpace.escaped && isnil(r.escapeErr) && !held(r.nameSpace.mu)
+//@   ensures unlocked: !held(t.nameSpace.mu)
+//@   ensures isolated: isnil(err) ==> fresh(r.nameSpace.set) && fresh(r.nameSpace.esc.output) && fresh(r.nameSpace.esc.derived) && fresh(r.nameSpace.esc.called) && fresh(r.nameSpace.esc.actionNodeEdits) && fresh(r.nameSpace.esc.templateNodeEdits) && fresh(r.nameSpace.esc.textNodeEdits) && r.nameSpace.esc.ns == r.nameSpace
+//@   ensures members: isnil(err) ==> forallkey(w, haskeym(r.nameSpace.set, w) ==> fresh(r.nameSpace.set[w]) && fresh(r.nameSpace.set[w].text) && isnil(r.nameSpace.set[w].escapeErr) && r.nameSpace.set[w].nameSpace == r.nameSpace)
+//@   ensures original: onlyfresh()
+//@   ensures unexecuted: isnil(err) ==> forallkey(w, haskeym(r.nameSpace.set, w) && !seqeq(w, ttname(t.text)) ==> haskeym(t.nameSpace.set, w) && !isnil(t.nameSpace.set[w]) && isnil(t.nameSpace.set[w].escapeErr))
+//@   loop 1
+//@     invariant escaper: fresh(ns.esc.output) && fresh(ns.esc.derived) && fresh(ns.esc.called) && fresh(ns.esc.actionNodeEdits) && fresh(ns.esc.templateNodeEdits) && fresh(ns.esc.textNodeEdits) && ns.esc.ns == ns
+//@     invariant self: forallkey(w, haskeym(ns.set, w) && ns.set[w] == ret ==> seqeq(w, ttname(t.text)))
+//@     invariant sources: forallkey(w, haskeym(ns.set, w) && ns.set[w] != ret ==> haskeym(t.nameSpace.set, w) && !isnil(t.nameSpace.set[w]) && isnil(t.nameSpace.set[w].escapeErr))
+//@     invariant texts: forallkey(w, haskeym(ns.set, w) ==> fresh(ns.set[w].text))
+//@     invariant trees: forallkey(w, haskeym(ns.set, w) && ns.set[w] != ret ==> isnil(ns.set[w].Tree) || fresh(ns.set[w].Tree))
+//@     invariant !isnil(ret) && fresh(ret) && ret.nameSpace == ns && fresh(ns) && !isnil(ns) && !isnil(ns.set) && fresh(ns.set) && !isnil(ret.text) && fresh(textClone) && !isnil(textClone)
+//@     invariant onlyfresh()
+//@     invariant !ns.escaped && !held(ns.mu) && held(t.nameSpace.mu)
+//@     invariant forallkey(w, haskeym(ns.set, w) ==> !isnil(ns.set[w]) && fresh(ns.set[w]) && isnil(ns.set[w].escapeErr) && ns.set[w].nameSpace == ns && !isnil(ns.set[w].text))
+//@     invariant haskeym(ns.set, ttname(ret.text))
+
+//@ func makeEscaper(n *nameSpace) (r escaper)
+//@   serves C06 C07
+//@   option allocates
+//@   ensures owner: r.ns == n
+//@   ensures freshmaps: fresh(r.output) && fresh(r.derived) && fresh(r.called) && fresh(r.actionNodeEdits) && fresh(r.templateNodeEdits) && fresh(r.textNodeEdits)
+//@   ensures empty: forallkey(w, !haskeym(r.output, w) && !haskeym(r.derived, w) && !haskeym(r.called, w))
